@@ -292,7 +292,9 @@ class Impl:
                 # identifier, so these are reported apart (C02 monitor, code 6) and not compared.
                 det = sorted(int(r.id[1:]) for r in m._reaction
                              if r._model is not M and any(x is m for x in r._metabolites))
-                back = sorted(int(r.id[1:]) for r in m._reaction if int(r.id[1:]) not in det)
+                # (listed in `back` as well: since the repair dd15391 no path of the generator makes two objects share a
+                #  metabolite object, so a registration of a detached reaction is a stale back reference)
+                back = sorted(int(r.id[1:]) for r in m._reaction)
                 mt.append({"id": k, "in": True, "back": back, "model_ptr": m._model is M, "detached_back": det})
             else:
                 mt.append({"id": k, "in": False, "back": []})
